@@ -42,6 +42,7 @@ pub fn decode_c04(u: &mut Unstructured) -> Result<CbCase> {
             0
         },
         classifier_first: u.arbitrary::<bool>()?,
+        listeners: false,
     };
     let mut ops = vec![];
     while !u.is_empty() && ops.len() < 400 {
